@@ -87,6 +87,18 @@ func c16Scalar(r *core.Rng) any {
 			return SliceOp{Txt: "~~", Ctx: "ctx", Tags: []string{"t"}}
 		}
 		return IfaceStruct{Name: "n", Any: map[string]int{"k": 1}}
+	case 27:
+		// values at the far end of (or missing from) a long chain of pointers
+		d := []int{2, 8, 9, 12, 64, 65, 300}[r.Intn(7)]
+		switch r.Intn(4) {
+		case 0:
+			return DeepNil(d)
+		case 1:
+			return DeepPtr(r.Intn(9), d)
+		case 2:
+			return DeepPtr(stackage.Or().Push("deep"), d)
+		}
+		return DeepPtr(ACond(stackage.Cond("dk", stackage.Eq, "dv")), d)
 	}
 	return fmt.Sprintf("junk%d", r.Intn(50))
 }
